@@ -5,7 +5,7 @@
    step -- MLIR scf.for, which is also what convert-scf-to-cf emits.  `for_sem` is its closed
    trip-count form; `for_fuel` the fuelled while loop defined for any step. *)
 From Coq Require Import ZArith List Bool.
-From XV Require Import C16.Model C16.ProofsFor C16.ProofsLoops C16.ProofsLicm.
+From XV Require Import C16.Model C16.ProofsFor C16.ProofsLoops C16.ProofsLicm C16.ProofsMore.
 Import ListNotations.
 Local Open Scope Z_scope.
 
@@ -204,6 +204,84 @@ Theorem C16_affine_lowering_partial : forall e dims syms, mods_nonneg e dims sym
 Proof. exact affine_lowering_partial. Qed.
 Print Assumptions C16_affine_lowering_partial.
 
+(* ---------------------------------------------------------------- convert-scf-to-cf: scf.index_switch *)
+(* SwitchLowering casts the index argument to i32 before cf.switch: correct whenever the argument
+   survives the cast (in particular for every value in the signed 32-bit range) ... *)
+Theorem C16_switch_lowering : forall st (casef : nat -> st -> st) cases arg s fuel,
+  trunc32 arg = arg -> (3 <= fuel)%nat ->
+  sw_run st casef fuel (lower_switch cases) arg 0%nat s = RDone st (switch_sem st casef cases arg s).
+Proof. exact switch_lowering. Qed.
+Print Assumptions C16_switch_lowering.
+
+Theorem C16_trunc32_small : forall z, -2147483648 <= z < 2147483648 -> trunc32 z = z.
+Proof. exact trunc32_small. Qed.
+Print Assumptions C16_trunc32_small.
+
+(* ... and wrong for an index that does not fit: 2^32 + 1 takes `case 1` instead of the default *)
+Theorem C16_switch_lowering_refuted : exists cases arg,
+  sw_run (list nat) (fun i s => i :: s) 3 (lower_switch cases) arg 0%nat []
+  <> RDone _ (switch_sem (list nat) (fun i s => i :: s) cases arg []).
+Proof. exact switch_lowering_refuted. Qed.
+Print Assumptions C16_switch_lowering_refuted.
+
+(* ---------------------------------------------------------------- control-flow-hoist *)
+Theorem C16_cfh : forall st (thenk elsek : Z -> st -> st) a b c s,
+  cfh_hoisted st thenk elsek (Some a) (Some b) c s = cfh_orig st thenk elsek (Some a) (Some b) c s.
+Proof. exact cfh_commutes. Qed.
+Print Assumptions C16_cfh.
+
+Theorem C16_cfh_refuted : forall st (thenk elsek : Z -> st -> st) b s,
+  cfh_orig st thenk elsek None (Some b) false s = Some (elsek b s)
+  /\ cfh_hoisted st thenk elsek None (Some b) false s = None.
+Proof. exact cfh_refuted. Qed.
+Print Assumptions C16_cfh_refuted.
+
+(* the pass decides with the same trait table as licm: same refutation (remsi & co. declared Pure) *)
+Theorem C16_cfh_pass_refuted : exists then_ops else_ops a b,
+  cfh_pass then_ops else_ops = true /\ op_eval (fst (hd (KAddi, None) then_ops)) a b = None.
+Proof. exact cfh_pass_refuted. Qed.
+Print Assumptions C16_cfh_pass_refuted.
+
+Theorem C16_cfh_pass_partial : forall then_ops else_ops o a b,
+  cfh_pass then_ops else_ops = true -> In o (then_ops ++ else_ops) ->
+  declared_pure_division (fst o) = false -> (forall c, snd o = Some c -> b = c) ->
+  op_eval (fst o) a b <> None.
+Proof. exact cfh_pass_partial. Qed.
+Print Assumptions C16_cfh_pass_partial.
+
+(* ---------------------------------------------------------------- lower-affine: for / load / store *)
+(* LowerAffineFor accepts exactly one closed result per bound map; the scf.for bounds it emits are the
+   affine bounds (mod caveat of C16_affine_lowering_partial); the loop itself is then `for_sem` *)
+Theorem C16_affine_for_lowering : forall lb ub step l u,
+  mods_nonneg lb [] [] -> mods_nonneg ub [] [] ->
+  lower_affine_for [lb] [ub] step = LFor l u step -> affine_for_bounds lb ub = Some (l, u).
+Proof. exact lower_affine_for_correct. Qed.
+Print Assumptions C16_affine_for_lowering.
+
+(* affine.load / affine.store: every emitted index equals the affine map's result *)
+Theorem C16_affine_index_lowering : forall results dims,
+  Forall (fun e => mods_nonneg e dims []) results ->
+  lower_index_map results dims = affine_index_map results dims.
+Proof. exact lower_index_map_correct. Qed.
+Print Assumptions C16_affine_index_lowering.
+
+(* ---------------------------------------------------------------- frontend-desymrefy (single block) *)
+(* the update the pass forwards to a fetch (nearest preceding update of the symbol) holds exactly the
+   content of the symbol's cell when the fetch executes *)
+Theorem C16_desymref_last_write : forall s r ops cur c,
+  fetch_reads s r ops cur = Some c -> last_write_before s r ops cur = c.
+Proof. exact last_write_is_cell_content. Qed.
+Print Assumptions C16_desymref_last_write.
+
+(* store/load forwarding on a single block in SSA form (wf_block) preserves the value of every remaining
+   op, for every meaning of the ops (usef), outside values (outv) and initial cell contents (init);
+   `forward` is the reference result that the real pass is compared with on every generated block *)
+Theorem C16_desymref_forward : forall (outv : nat -> Z) (usef : nat -> list Z -> Z) (init : nat -> Z) ops sy fe ue,
+  wf_block ops [] = true ->
+  run outv usef init (forward ops [] []) sy fe ue = run outv usef init ops sy fe ue.
+Proof. exact forward_preserves_block. Qed.
+Print Assumptions C16_desymref_forward.
+
 (* ---------------------------------------------------------------- non-vacuity / witnesses *)
 (* zero-trip and negative ranges are covered by for_sem (no hypothesis lb < ub anywhere above) *)
 Example C16_zero_trip : for_sem (list Z) log_body 5 5 1 [] = [] /\ for_sem (list Z) log_body 3 (-4) 2 [] = []
@@ -236,3 +314,16 @@ Example C16_licm_nonvacuous :
   licm_pass [mkBop KMuli OOut OOut None; mkBop KAddi (OOp 0) OLoop None; mkBop KRemsi (OOp 0) OOut None;
              mkBop KDivsi OOut OOut None; mkBop KSubi (OOp 2) OOut (Some 4)] = Some [0; 2; 4]%nat.
 Proof. vm_compute. reflexivity. Qed.
+Example C16_switch_nonvacuous :
+  sw_run (list nat) (fun i s => i :: s) 3 (lower_switch [5; 1; 7]) 1 0%nat [] = RDone _ [1%nat]
+  /\ sw_run (list nat) (fun i s => i :: s) 3 (lower_switch [5; 1; 7]) 2 0%nat [] = RDone _ [3%nat]
+  /\ sw_run (list nat) (fun i s => i :: s) 3 (lower_switch [1]) 4294967297 0%nat [] = RDone _ [0%nat]
+  /\ switch_sem (list nat) (fun i s => i :: s) [1] 4294967297 [] = [1%nat].
+Proof. vm_compute. repeat split. Qed.
+(* declare a; a = x; t0 = fetch a; a = y; t1 = fetch a; use(t0, t1): both fetches are forwarded *)
+Example C16_desymref_nonvacuous :
+  prune_definitions 40 [SDeclare 0; SUpdate 0 (VOut 7); SFetch 0 0; SUpdate 0 (VOut 8); SFetch 0 1;
+                        SUse 1 [VFetch 0; VFetch 1]] = DOk [SUse 1 [VOut 7; VOut 8]]
+  /\ forward [SDeclare 0; SUpdate 0 (VOut 7); SFetch 0 0; SUpdate 0 (VOut 8); SFetch 0 1;
+              SUse 1 [VFetch 0; VFetch 1]] [] [] = [SUse 1 [VOut 7; VOut 8]].
+Proof. vm_compute. split; reflexivity. Qed.
